@@ -137,7 +137,7 @@ def gen_case(rng, tier):
             hi = 1.0
         case.update(start=lo, stop=hi, factor=rng.choice([2.0, 10.0, 1e10, 1e100, 1e308, 16.0, 1.2, 1.1]),
                     count=rng.choice([None, None, None, 1, 5, 40]),
-                    jitter=rng.choice([False, False, 0.5, 1.0]) if hi < 1e300 else False)
+                    jitter=rng.choice([False, False, 0.5, 1.0, -0.5, -1.0]))
     if case['count'] == 'repeat':
         case['api'] = 'backoff_iter'
     return case
@@ -359,7 +359,9 @@ def run_case(case):
                     break
             else:
                 if not (math.isfinite(v) and math.isfinite(lo) and math.isfinite(hi)):
-                    if not math.isfinite(v) and math.isfinite(lo) and math.isfinite(hi):
+                    if v != v or (not math.isfinite(v) and math.isfinite(lo) and math.isfinite(hi)) \
+                            or (math.isfinite(v) is False and v < 0 and b >= 0):
+                        # NaN is between nothing; an infinite value needs an infinite bound on that side
                         out.fail('jitter-out-of-bounds', i, '%s: value %d = %r is not a finite number (b=%r, jitter=%r)'
                                  % (desc, i, v, b, jit), clause='jitter')
                         break
